@@ -2,6 +2,7 @@ package main
 
 import (
 	"fmt"
+	"sort"
 	"strings"
 	"unicode/utf8"
 )
@@ -29,7 +30,13 @@ var alternates = map[string][]string{
 }
 
 func setAlphabet(seed int64) {
-	for k, alts := range alternates {
+	keys := make([]string, 0, len(alternates))
+	for k := range alternates {
+		keys = append(keys, k)
+	}
+	sort.Strings(keys)
+	for _, k := range keys {
+		alts := alternates[k]
 		codeToStr[k] = alts[int(uint64(seed+int64(len(k)))%uint64(len(alts)))]
 		seed = seed*6364136223846793005 + 1442695040888963407
 		if seed < 0 {
